@@ -221,4 +221,48 @@ theorem locals_reset_after_cleanup (N : Nat) (evs : List Ev) :
   have := key evs (Loc.init N) (locInv_init N)
   simpa [Loc.init] using this
 
+
+/-! ## the oracle rejects what it should (negative examples, one group per clause of `judge` / `judgeEv`) -/
+
+-- cursor / allocation clause
+example : judgeEv [Out.ev "local.type" 51 50] ≠ [] := by decide
+example : judgeEv [Out.ev "local.pop" (-1) 25] ≠ [] := by decide
+example : judgeEv [Out.ev "inc.push" 32 31] ≠ [] := by decide
+example : judgeEv [Out.ev "mem.alloc" 4097 4096] ≠ [] := by decide
+example : judgeEv [Out.ev "mem.req" numAreas 8] ≠ [] := by decide      -- block number outside NUMAREAS
+example : judgeEv [Out.ev "lex.start.fnflag" 1 0] ≠ [] := by decide    -- function_flag leaked into the next file
+example : judgeEv [Out.ev "fnctx.pop" (-1) 10] ≠ [] := by decide
+-- identifier clauses
+example : judgeEv [Out.identEnd "write" 1 (-1) (-1) (-1) (-1)] ≠ [] := by decide
+example : judgeEv [Out.identEnd "write" 0 (-1) 0 (-1) (-1)] ≠ [] := by decide      -- stale global_num
+example : judgeEv [Out.identEnd "time" 0 (-1) (-1) 2 (-1)] ≠ [] := by decide       -- stale class_num
+example : judgeEv [Out.identEnd "time" 0 (-1) (-1) (-1) 3] ≠ [] := by decide       -- stale local_num
+example : judgeEv [Out.identEnd "time" (-1) (-1) (-1) (-1) (-1)] ≠ [] := by decide -- sem_value dropped
+example : judgeEv [Out.identClean "write" 1] ≠ [] := by decide
+example : judgeEv [Out.identBind "fn" (-1) 1 "f" false (-1) 0] ≠ [] := by decide
+example : judgeEv [Out.ident (-1) 1 "x" false (-1) 0] ≠ [] := by decide
+-- locals reset clause
+example : judgeEv [Out.localsEnd 1 1 0 0] ≠ [] := by decide
+example : judgeEv [Out.localsEnd 0 0 3 0] ≠ [] := by decide
+example : judgeEv [Out.localsEnd 0 0 0 7] ≠ [] := by decide
+-- scratchpad clause
+example : judgeEv [Out.scr "scr.push" 4096 4095 4000 0 none] ≠ [] := by decide    -- length byte outside the pad
+example : judgeEv [Out.scr "scr.after" 1 4095 1 0 none] ≠ [] := by decide         -- walked below &scratchblock[2]
+example : judgeEv [Out.scr "scr.after" 5 4095 9 0 none] ≠ [] := by decide         -- last above tail
+-- crash clause
+example : judgeEv [Out.crash "anything"] ≠ [] := by decide
+-- whole-trace clauses
+example : judge [.result ["none"]] ≠ [] := by decide
+example : judge [.crashLine "crash timeout"] ≠ [] := by decide
+example : judge [.crashLine "sanitizer ERROR: AddressSanitizer: heap-buffer-overflow"] ≠ [] := by decide
+-- (the probe clauses compare strings; they are checked by evaluation, `decide` does not reduce String.startsWith)
+#guard judge [.probe "aaaa size=1", .probe "bbbb size=1"] != []
+#guard judge [.probe "aaaa size=1", .probe "FAIL errors=1 thrown=0"] != []
+#guard judge [.probe "FAIL errors=1 thrown=0", .probe "FAIL errors=1 thrown=0"] != []
+example : judge [.aprobeDiff "aprobe-differs write r fresh=[errors 1] after=[prog x]"] ≠ [] := by decide
+example : judge [.baseOdd "ident.base-odd write fn=-1 glob=0 cls=-1 local=-1"] ≠ [] := by decide
+-- and accepts a clean trace
+#guard judge [.cfg 25, .out (.ev "local.type" 1 25), .out (.localsEnd 0 0 0 0), .result ["prog"],
+              .probe "aaaa", .probe "aaaa"] == []
+
 end NV.C02
